@@ -16,7 +16,7 @@ from typing import Any, Callable, Iterable, Iterator
 
 VERIF = Path(__file__).resolve().parent.parent
 REPO = Path(os.environ.get("FLOWMARK_REPO", "/repo"))
-PY = str(VERIF / ".venv" / "bin" / "python")
+PY = sys.executable
 NPROC = int(os.environ.get("VERIF_NPROC", "16"))
 
 EXIT_OK, EXIT_VIOLATION, EXIT_HARNESS = 0, 1, 3
